@@ -106,6 +106,8 @@ def drive(spec, cuts):
 
 def split_lists(spec):
     total = len(spec["wire"])
+    if isinstance(spec["splits"], dict):      # bulk streams: only the listed deliveries
+        return [list(c) for c in spec["splits"]["only"]]
     if spec["splits"] == "all3":
         return httpgen.all_cuts(total)
     return [[c] for c in range(total + 1)] + [list(c) for c in spec["splits"]]
@@ -187,9 +189,42 @@ def cases(draw, via, small):
     return spec
 
 
+@st.composite
+def bulk_cases(draw, via):
+    """A long stream (more than the 64 KiB line limit) of many short events, delivered whole, in a few big pieces
+    and in 4 KiB pieces: a limit that is meant for one line must not depend on how much is buffered."""
+    eols = draw(st.sampled_from([["\n"], ["\r\n"], ["\r"], ["\n", "\r\n"], ["\r", "\n", "\r\n", "\r\n"]]))
+    nev = draw(st.integers(1500, 2200))
+    pad = draw(st.integers(8, 24))
+    lines, events = [], []
+    k = 0
+
+    def add(text):
+        nonlocal k
+        eol = eols[k % len(eols)]
+        # a CR followed by the LF of the next (empty) line would read as one CRLF: keep such pairs apart
+        if lines and lines[-1][1] == "\r" and text == "" and eol.startswith("\n"):
+            eol_prev = lines[-1]
+            lines[-1] = (eol_prev[0], "\r\n")
+        lines.append((text, eol))
+        k += 1
+    for i in range(nev):
+        add("id: e%d" % i)
+        add("data: " + ("p%d " % i) + "x" * pad)
+        add("")
+        events.append(["e%d" % i, "", ("p%d " % i) + "x" * pad])
+    wire = "".join(t + e for t, e in lines).encode("utf-8")
+    total = len(wire)
+    only = [[total // 2], [66000] if total > 66000 else [total // 3], [10, total - 10], list(range(4096, total, 4096)),
+            [draw(st.integers(1, total - 1))]]
+    return {"wire": wire, "lines": lines, "events": events, "retry": None, "leid": "e%d" % (nev - 1), "via": via,
+            "mixed": len(set(eols)) > 1, "has_crlf": "\r\n" in eols, "splits": {"only": only}, "bulk": True}
+
+
 def plan(tier):
     n = 1 if tier == "quick" else 4
     shards = []
+    shards.append({"part": "bulk", "i": 700, "n": 3 if tier == "quick" else 12})
     if tier == "thorough":
         shards += [{"part": "atheris", "target": "c33-direct", "seconds": 180, "i": 900},
                    {"part": "atheris", "target": "c33-chunked", "seconds": 180, "i": 901}]
@@ -208,7 +243,9 @@ def work(shard, seed, tier):
         from vp.fuzz.fuzz_http import run_campaign
         run_campaign(acc, shard["target"], shard["seconds"], seed, max_len=16384)
         return acc
-    if tier == "quick":
+    if shard.get("part") == "bulk":
+        n = shard["n"]
+    elif tier == "quick":
         n = 60 if shard["small"] else 120
     else:
         n = 500 if shard["small"] else 1200
@@ -220,9 +257,17 @@ def work(shard, seed, tier):
         key = (bytes(spec["wire"]), repr(spec["splits"]), spec["via"])
         sample = {"via": spec["via"], "wire": bytes(spec["wire"])[:160], "events": spec["events"][:3],
                   "retry": spec["retry"], "leid": spec["leid"],
-                  "splits": spec["splits"] if spec["splits"] == "all3" else spec["splits"][:2]}
-        return Outcome(fails, nontrivial=nontrivial, classes=classes, key=key, sample=sample)
+                  "splits": spec["splits"] if spec["splits"] == "all3" else
+                  (spec["splits"][:2] if isinstance(spec["splits"], list) else "bulk")}
+        if spec.get("bulk"):
+            classes = classes + ["bulk-stream-over-64KiB"]
+        return Outcome(fails, nontrivial=nontrivial or bool(spec.get("bulk")), classes=classes, key=key, sample=sample)
 
+    if shard.get("part") == "bulk":
+        campaign(acc, st.sampled_from(["direct", "stream", "chunked"]).flatmap(bulk_cases), execute, n, seed * 1000 + shard["i"],
+                 budget=Budget(120 if tier == "quick" else 480), shrink=False)
+        acc.extra["split_parses"] = tot["splits"]
+        return acc
     campaign(acc, cases(shard["via"], shard["small"]), execute, n, seed * 1000 + shard["i"],
              budget=Budget(120 if tier == "quick" else 480))
     acc.extra["split_parses"] = tot["splits"]
